@@ -580,3 +580,126 @@ if __name__ == '__main__':
     for q in gen_requests(seed, int(sys.argv[2]) if len(sys.argv) > 2 else 5):
         print(q['src'])
         print('   ', q['tags'], json.dumps(q['cfg'])[:150])
+
+
+# -------------------------------------------------------------------- targeted generators
+
+def reserved_requests(seed, n):
+    """programs that mention the reserved temporary prefix at every kind of position (C06 refusal)"""
+    r = SplitMix64(seed)
+    from vlib import DEFAULT_CFG
+    spots = [
+        "function f(){ const %s = 0; return a + b(); }",
+        "function f(%s){ return a + b(); }",
+        "const %s = 1; function g(){ return a + b(); }",
+        "function g(){ return a + b(); } var q = %s;",
+        "function f(){ return (%s) => a + b(); }",
+        "function f(){ delete o[%s]; return a + b(); }",
+        "function f(){ if (c) y = 1; else z = %s + b(); }",
+        "function f(){ return `${'lit'}${%s}` + a(); }",
+        "function f(){ %s: for(;;){ break %s; } return a + b(); }",
+        "function f(){ return a + b(); } class K { %s = 1; }",
+        "function f(){ return o.%s + b(); }",
+        "function f(){ return ({%s: 1}).x + b(); }",
+        "function f(){ try { x() } catch (%s) { return a + b(); } }",
+        "function f(){ return o?.[%s].trim(); }",
+        "import %s from 'm'; function f(){ return a + b(); }",
+        "function f(){ return 'no reserved name here %s' + b(); }",
+        "function f(){ return a + b(); } // %s in a comment",
+    ]
+    out = []
+    for i in range(n):
+        pfx = r.choice(["test", "t", "abcxyz"])
+        name = "__datadog_%s_%d" % (pfx, r.below(3))
+        if r.chance(1, 6):
+            name = "__datadog_%s_" % pfx + r.choice(["x", "", "00", "9z"])
+        if r.chance(1, 8):
+            name = "__datadog_other_0"
+        spot = r.choice(spots)
+        src = spot.replace("%s", name)
+        cfg = dict(DEFAULT_CFG, localVarPrefix=pfx)
+        out.append({"id": "reserved-%d" % i, "cfg": cfg, "src": src, "file": "test.js", "tags": ['reserved']})
+    return out
+
+
+def directive_requests(seed, n):
+    """directive prologues of every shape in functions, arrows, methods, the program, scripts and modules"""
+    r = SplitMix64(seed)
+    from vlib import DEFAULT_CFG
+    dirs = ["'use strict';", "\"use strict\";", "'other';", "'use asm';", "'use\\x20strict';", "'use strict'\n", "\"use client\";",
+            "('use strict');", "'a' + 'b';", "`use strict`;"]
+    bodies = ["return a + b();", "x += y(); return x;", "return s.trim();", "return `a${b}`;", "var q = 1; return q;", "return a?.trim();"]
+    out = []
+    for i in range(n):
+        g = r.fork()
+        def dp():
+            k = g.below(5)
+            return " ".join(g.choice(dirs) for _ in range(k))
+        shape = g.below(7)
+        body = g.choice(bodies)
+        if shape == 0:
+            src = "%s function f(a, b){ %s %s }" % (dp(), dp(), body)
+        elif shape == 1:
+            src = "%s const f = (a, b) => { %s %s };" % (dp(), dp(), body)
+        elif shape == 2:
+            src = "%s class K { m(a, b){ %s %s } static { %s x = a + b(); } }" % (dp(), dp(), body, dp())
+        elif shape == 3:
+            src = "%s import z from 'z'; export function f(a, b){ %s %s }" % (dp(), dp(), body)
+        elif shape == 4:
+            src = "%s function f(a, b){ %s function g(){ %s %s } return g() + a; }" % (dp(), dp(), dp(), body)
+        elif shape == 5:
+            src = "%s { %s x = a + b(); }" % (dp(), dp())
+        else:
+            src = "%s var o = { m(a, b){ %s %s }, get g(){ %s %s } };" % (dp(), dp(), body, dp(), body)
+        out.append({"id": "directive-%d" % i, "cfg": DEFAULT_CFG, "src": src, "file": "test.js", "tags": ['directive']})
+    return out
+
+
+def literal_requests(seed, n):
+    """string literals around both length bounds, multi-line / non-ASCII layouts, every placement"""
+    r = SplitMix64(seed)
+    from vlib import DEFAULT_CFG
+    out = []
+    for i in range(n):
+        g = r.fork()
+        def lit():
+            k = g.below(10)
+            ln = g.choice([9, 10, 11, 12, 40, 255, 256, 257, 300, 5])
+            ch = g.choice(["a", "x", "é", "パ", "-"])
+            bl = len(ch.encode('utf-8'))
+            body = ch * max(1, ln // bl) if k < 7 else (ch * (ln // bl))[: max(1, ln // bl - 1)] + "z"
+            if k == 8:
+                body = "shared literal value!"
+            q = g.choice(["'", '"'])
+            return q + body + q
+        place = g.below(12)
+        pad = g.choice(["", "\n", "  ", "\n\n\t", "/* éé */ "])
+        if place == 0:
+            src = "function f(a){ %sreturn a + %s; }" % (pad, lit())
+        elif place == 1:
+            src = "%sconst v = %s, w = %s;" % (pad, lit(), lit())
+        elif place == 2:
+            src = "function f(a){ const o = {%sk: %s, 'q': %s, [a]: %s}; return o; }" % (pad, lit(), lit(), lit())
+        elif place == 3:
+            src = "function f(a){ return a.concat(%s, %s)%s; }" % (lit(), lit(), pad)
+        elif place == 4:
+            src = "const m = require(%s); function f(){ return require(a, %s) + new RegExp(%s, %s) + new RegExp(a, %s); }" % (lit(), lit(), lit(), lit(), lit())
+        elif place == 5:
+            src = "function f(a){ return %s.concat(a) + `x${a}` + %s.padStart(3, a); }" % (lit(), lit())
+        elif place == 6:
+            src = "function f(a){\n  let x = %s;\n  x += %s;\n  return x ? %s : a;\n}" % (lit(), lit(), lit())
+        elif place == 7:
+            src = "class K { fld = %s; m(a = %s){ return a + %s; } }" % (lit(), lit(), lit())
+        elif place == 8:
+            src = "function f(a){ return String.prototype.concat.call(%s, a, %s); }" % (lit(), lit())
+        elif place == 9:
+            src = "export const e = %s; import q from %s; function f(a){ return a + %s; }" % (lit(), lit(), lit())
+        elif place == 10:
+            src = "function f(a){ return a?.concat(%s) + tag`${%s}` + (a, %s); }" % (lit(), lit(), lit())
+        else:
+            src = "﻿" * g.below(2) + "function f(a){ return [%s, %s, a + %s]; }\r\nvar z = %s;" % (lit(), lit(), lit(), lit())
+        cfg = dict(DEFAULT_CFG)
+        if g.chance(1, 6):
+            cfg['literals'] = False
+        out.append({"id": "literal-%d" % i, "cfg": cfg, "src": src, "file": "test.js", "tags": ['literal']})
+    return out
